@@ -272,10 +272,13 @@ def _dumps_kvn(data, **kwargs):
 
         text = []
         cov = []
+        # All the dates of a segment are expressed in its TIME_SYSTEM
+        scale = data.start.scale.name
+
         for orb in data:
             text.append(
                 "{date:{dfmt}} {orb[0]:{fmt}} {orb[1]:{fmt}} {orb[2]:{fmt}} {orb[3]:{fmt}} {orb[4]:{fmt}} {orb[5]:{fmt}}".format(
-                    date=orb.date,
+                    date=orb.date.change_scale(scale),
                     orb=orb.base / units.km,
                     fmt=" 10f",
                     dfmt=DATE_FMT_DEFAULT,
@@ -289,7 +292,9 @@ def _dumps_kvn(data, **kwargs):
                     cov_text.append("")
 
                 cov_text.append(
-                    "EPOCH = {date:{dfmt}}".format(date=orb.date, dfmt=DATE_FMT_DEFAULT)
+                    "EPOCH = {date:{dfmt}}".format(
+                        date=orb.date.change_scale(scale), dfmt=DATE_FMT_DEFAULT
+                    )
                 )
 
                 if orb.cov.frame != orb.frame:
@@ -336,11 +341,14 @@ def _dumps_xml(data, **kwargs):
 
         data_tag = ET.SubElement(segment, "data")
 
+        # All the dates of a segment are expressed in its TIME_SYSTEM
+        scale = data.start.scale.name
+
         for el in data:
             el = el.copy(form="cartesian")
             statevector = ET.SubElement(data_tag, "stateVector")
             epoch = ET.SubElement(statevector, "EPOCH")
-            epoch.text = el.date.strftime(DATE_FMT_DEFAULT)
+            epoch.text = el.date.change_scale(scale).strftime(DATE_FMT_DEFAULT)
 
             elems = {
                 "X": "x",
@@ -362,7 +370,7 @@ def _dumps_xml(data, **kwargs):
                 cov = ET.SubElement(data_tag, "covarianceMatrix")
 
                 cov_date = ET.SubElement(cov, "EPOCH")
-                cov_date.text = el.date.strftime(DATE_FMT_DEFAULT)
+                cov_date.text = el.date.change_scale(scale).strftime(DATE_FMT_DEFAULT)
 
                 if el.cov.frame != el.frame:
                     frame = el.cov.frame
